@@ -167,7 +167,7 @@ MUTATIONS = {
            "remove_eps_all", "extend_eps", "cut_eps_second"],
     "pda": ["add_transition_new", "add_final_new"],
     "fst": ["add_transition_new", "add_final_all"],
-    "dict": ["clear"],
+    "dict": ["clear", "edit_inner"],
 }
 
 
@@ -228,7 +228,19 @@ def mutate(kind, obj, how):
             for s in list(obj.states):
                 obj.add_final_state(s)
     elif kind == "dict":
-        obj.clear()
+        if how == "edit_inner":
+            # the containers INSIDE the returned dictionary (per-state dictionaries, successor sets / lists) are edited
+            for v in list(obj.values()):
+                inner = list(v.values()) if isinstance(v, dict) else [v]
+                for x in inner:
+                    if isinstance(x, set):
+                        x.clear()
+                    elif isinstance(x, list):
+                        del x[:]
+                if isinstance(v, dict):
+                    v.clear()
+        else:
+            obj.clear()
 
 
 # ---------------------------------------------------------------- normal forms and signatures
@@ -621,6 +633,14 @@ def targeted(rng, n):
                     {"target": 0, "mutate": "remove_eps_all"}, {"target": 0, "op": "accepts", "arg": 3},
                     {"target": 0, "op": "accepts", "arg": 1}, {"target": 0, "op": "remove_epsilon_transitions", "arg": 0},
                     {"target": 0, "op": "get_accepted_words", "arg": 0}])
+        # the dictionary form of an automaton and of a PDA: its inner containers edited, the source asked again
+        out.append([{"target": 12, "op": "to_dict", "arg": 0}, {"target": "R0", "mutate": "edit_inner"},
+                    {"target": 12, "op": "accepts", "arg": 1}, {"target": 12, "op": "get_number_transitions", "arg": 0},
+                    {"target": 12, "op": "accepts", "arg": 3}, {"target": 0, "op": "to_dict", "arg": 0},
+                    {"target": "R1", "mutate": "edit_inner"}, {"target": 0, "op": "accepts", "arg": 1},
+                    {"target": 0, "op": "get_number_transitions", "arg": 0}, {"target": 0, "op": "to_deterministic", "arg": 0},
+                    {"target": 6, "op": "to_dict", "arg": 0}, {"target": "R3", "mutate": "edit_inner"},
+                    {"target": 6, "op": "get_number_transitions", "arg": 0}, {"target": 6, "op": "to_cfg", "arg": 0}])
         # epsilon chain: the closure of the start state changes through edits of edges further down the chain
         out.append([{"target": 12, "op": "accepts", "arg": rng.randrange(11)}, {"target": 12, "op": "accepts", "arg": 1},
                     {"target": 12, "op": "to_deterministic", "arg": 0}, {"target": 12, "mutate": "extend_eps"},
